@@ -117,7 +117,12 @@ func (q *QuadTree[T, N]) Reorganize() {
 			threshold: q.threshold(),
 		}
 		for _, one := range all {
-			q.root.insert(one)
+			if rect.Contains(one.Bounds()) {
+				q.root.insert(one)
+			} else {
+				// Floating-point rounding in the union may leave a node sticking out of the root
+				q.outside = append(q.outside, one)
+			}
 		}
 	}
 }
